@@ -1474,11 +1474,60 @@ def refcount_protocol_cxx(ctx, crate, cx):
             detail = "var=%s starts-at-0=%s bound-is-size=%s element-i-to-slot-i=%s size-counted=%s" % (var, starts0, cond_ok, new_ok, counts)
             if starts0 and cond_ok and new_ok and counts:
                 ok_copy = True
+            if not ok_copy and counts:
+                # pointer walk: `for (src = cbegin(), end = cend(); src != end; ++src, ++dst) new (dst) T(*src);` with dst starting at the
+                # first slot of the new buffer - the same copy, element k to slot k, written with two cursors that advance together
+                ref = lambda x: (_strip(x).get("referencedDecl") or {}).get("name")
+                vds = {v.get("name"): v for v in cxx.walk(init, lambda y: y.get("kind") == "VarDecl")}
+
+                def init_calls(vd, member):
+                    return bool(vd) and bool(cxx.walk(vd, lambda y: y.get("kind") == "MemberExpr" and y.get("name") == member and
+                                                      cxx.walk(y, lambda z: z.get("kind") == "CXXThisExpr"))) and \
+                        not cxx.walk(vd, lambda y: y.get("kind") in ("BinaryOperator", "UnaryOperator", "ArraySubscriptExpr", "ConditionalOperator"))
+                srcs = [n_ for n_, vd in vds.items() if init_calls(vd, "cbegin") or init_calls(vd, "begin")]
+                ptr_ok = False
+                if cond is not None and len(_kids(cond)) == 2 and srcs and cond.get("opcode") in ("!=", "<"):
+                    a, b_ = _kids(cond)
+                    src = ref(a)
+                    endv = ref(b_)
+                    end_ok = (endv in vds and (init_calls(vds[endv], "cend") or init_calls(vds[endv], "end"))) or \
+                        (bool(cxx.walk(b_, lambda y: y.get("kind") == "MemberExpr" and y.get("name") in ("cend", "end"))) and
+                         not cxx.walk(b_, lambda y: y.get("kind") in ("BinaryOperator", "UnaryOperator")))
+                    incs = [ref(_kids(u)[0]) for x in ks[1:] if isinstance(x, dict) and x is not cond
+                            for u in cxx.walk(x, lambda y: y.get("kind") == "UnaryOperator" and y.get("opcode") == "++") if _kids(u)
+                            if x.get("kind") != "CompoundStmt"]
+                    for nw in news:
+                        nk = _kids(nw)
+                        dst = ref(nk[-1]) if nk else None
+                        derefs = [ref(_kids(u)[0]) for u in cxx.walk(nw, lambda y: y.get("kind") == "UnaryOperator" and y.get("opcode") == "*") if _kids(u)]
+                        # dst is a local that starts at `<header of the new buffer> + 1` and is written by nothing but the loop's `++dst`
+                        dvs = cxx.walk(body, lambda y: y.get("kind") == "VarDecl" and y.get("name") == dst)
+                        starts_at_first = bool(dvs) and bool(cxx.walk(dvs[0], lambda y: y.get("kind") == "BinaryOperator" and y.get("opcode") == "+" and
+                                                                      len(_kids(y)) == 2 and _strip(_kids(y)[1]).get("value") == "1")) and \
+                            not cxx.walk(dvs[0], lambda y: y.get("kind") == "BinaryOperator" and y.get("opcode") in ("-", "*")) and \
+                            len(cxx.walk(dvs[0], lambda y: y.get("kind") == "BinaryOperator" and y.get("opcode") == "+")) == 1
+                        other_writes = [y for y in cxx.walk(body, lambda y: y.get("kind") in ("BinaryOperator", "CompoundAssignOperator", "UnaryOperator") and
+                                                             y.get("opcode") in ("=", "+=", "-=", "++", "--") and _kids(y) and ref(_kids(y)[0]) in (dst, src))]
+                        if src in srcs and end_ok and sorted(incs) == sorted([src, dst]) and derefs == [src] and dst and starts_at_first and \
+                                len(other_writes) == 2:
+                            ptr_ok = True
+                    detail += " pointer-walk=%s" % ptr_ok
+                if ptr_ok:
+                    ok_copy = True
         adopts = False
         for bo in cxx.walk(body, lambda y: y.get("kind") == "BinaryOperator" and y.get("opcode") == "="):
             ks = _kids(bo)
             if len(ks) == 2 and cxx.walk(ks[0], lambda y: y.get("kind") == "CXXThisExpr") and _strip(ks[0]).get("kind") == "UnaryOperator":
                 adopts = True
+        # `std::swap(inner, new_array.inner)` is the body of the move assignment: this vector takes the new buffer and the local,
+        # whose destructor runs at the end of detach, releases the old one
+        for c in cxx.walk(body, lambda y: y.get("kind") == "CallExpr"):
+            if cxx.walk(c, lambda y: y.get("kind") in ("UnresolvedLookupExpr", "DeclRefExpr") and ((y.get("referencedDecl") or {}).get("name") or y.get("name")) == "swap"):
+                args = _kids(c)[1:]
+                if len(args) == 2 and any(_is_inner_of(a, None) for a in args) and \
+                        any((not _is_inner_of(a, None)) and (a.get("member") or a.get("name")) == "inner" and
+                            cxx.walk(a, lambda y: y.get("kind") == "DeclRefExpr" and (y.get("referencedDecl") or {}).get("kind") == "VarDecl") for a in args):
+                    adopts = True
         ctx.ob(R, "resolvo::Vector::detach", "copies-every-element-and-adopts-the-copy", ok_copy and adopts, H,
                "elements 0..size are copy-constructed into the same index of the new buffer, its size is counted per element, and "
                "*this takes the new buffer (%s, adopts=%s)" % (detail, adopts))
